@@ -438,7 +438,7 @@ func runC11(p *eng.Prog, r *eng.Report, tier string) {
 				continue
 			}
 			pt, _ := g.Where(rs)
-			if len(rs.Results) == 1 && pf.Norm(rs.Results[0], &pt) == "jid.New(jid.SplitString(p0)#0,jid.SplitString(p0)#1,jid.SplitString(p0)#2)" {
+			if res := retResults(pf, rs); len(res) == 1 && pf.Norm(res[0], &pt) == "jid.New(jid.SplitString(p0)#0,jid.SplitString(p0)#1,jid.SplitString(p0)#2)" {
 				okd, _ := g.Dominated(pt, "eq(jid.SplitString(p0)#3,nil)")
 				okP = okd
 			}
